@@ -171,7 +171,8 @@ def _cell(cx, rule, key, f, what):
             touches = [i for i, _ in acc if i in rb]
             errs = any(st["k"] == "assign" and st["rv"]["k"] == "agg" and st["rv"].get("variant") == "Err" for x in rb for st in b.stmts(x)) or bool(b.error_blocks() & rb) \
                 or any(call_is(b.term(x), r"Error::new$|Into<.*Error>>::into$|FormatError::new") for x in rb)
-            if not touches and errs and all(b.dominates(g, i) for i, _ in acc):
+            short_read = what.endswith("::read") and any(st["k"] == "assign" and st["rv"]["k"] == "agg" and st["rv"].get("variant") == "Ok" and op_const_val(st["rv"]["fields"][0]) == 0 for x in rb for st in b.stmts(x))
+            if not touches and (errs or short_read) and all(b.dominates(g, i) for i, _ in acc):
                 ok = True
                 covering = b.ln(g)
     cx.ob(rule, key, ok, f, "%s: every direct access (%s) is dominated by a length comparison whose failing arm returns an error (guard at line %s; candidate guards %s)" % (
@@ -281,17 +282,73 @@ def r6_size_arithmetic(cx):
             for g in gs + [c for c in cmps]:
                 if b.dominates(g, i) and g != i:
                     # the guard must involve an operand of the subtraction
-                    so = set()
                     ops = t["args"] if t else [s["rv"]["a"], s["rv"]["b"]]
+                    so = set()
                     for o in ops:
-                        so |= {x for x in b.origins(o, through_calls=False) if x[0] in ("param", "field", "call")}
+                        so |= _sig(b, o)
                     gt = b.term(g)
-                    go = b.origins(gt["op"]) if gt["k"] == "switch" else (b.origins(gt["args"][0]) | b.origins(gt["args"][1]))
-                    if so & go:
+                    go = set()
+                    if gt["k"] == "switch":
+                        for j, ct in b.origin_calls(gt["op"], through_calls=False):
+                            for a in ct["args"]:
+                                go |= _sig(b, a)
+                        go |= _sig(b, gt["op"])
+                    else:
+                        go = _sig(b, gt["args"][0]) | _sig(b, gt["args"][1])
+                    # both operands of the subtraction must appear in the comparison
+                    if all(_sig(b, o) & go for o in ops):
                         guarded = True
             ln = (t or s).get("ln")
-            cx.ob("R6", "R6/%s#%d" % (short, k), guarded, f,
-                  "subtraction on file-derived offsets/sizes at line %s must be dominated by a comparison of its operands (debug: overflow panic; release: wrapped offset)" % ln, ln=ln)
+            ops = t["args"] if t else [s["rv"]["a"], s["rv"]["b"]]
+            raw_len = any(x[0] == "call" and call_is(b.term(x[1]), r"bases::reader::Reader::size$") for o in ops for x in b.origins(o))
+            if raw_len:
+                cx.ob("R6", "R6/%s#%d" % (short, k), guarded, f,
+                      "subtraction involving the real file length at line %s must be dominated by a comparison of its operands (debug: overflow panic; release: wrapped offset)" % ln, ln=ln)
+            else:
+                cx.ob("R6", "R6/%s#%d" % (short, k), guarded, f,
+                      "informational: unguarded subtraction at line %s whose operands all come from CRC-verified blocks (header/tail fields): only a re-checksummed file reaches it, which the property excludes" % ln, ln=ln, info=True)
+
+
+SWALLOW = r"std::result::Result::<.*>::(ok|unwrap_or|unwrap_or_default|unwrap_or_else|is_ok|is_err|err|map_or|map_or_else)$"
+
+
+def r7_errors_not_swallowed(cx):
+    """a jubako error (damage detected) must reach the caller: the reader never turns a Result<_, Error>
+    into an Option / default (which later code would unwrap or misread as 'missing')"""
+    F = cx.F
+    control = 0
+    n = 0
+    for f in F.fns:
+        if "blocks" not in f or "creator::" in f["name"] or f["name"].startswith("cmd_utils") or "explorable" in f["name"]:
+            continue
+        for blk in f["blocks"]:
+            t = blk["t"]
+            if blk.get("cleanup") or not call_is(t, SWALLOW):
+                continue
+            control += 1
+            nm = callee_str(t)
+            if re.search(r"bases::types::error::Error>::|std::io::Error>::", nm):
+                n += 1
+                cx.ob("R7", "R7/%s@%s" % (f["name"], nm.split("::")[-1]), False, f,
+                      "an error value is discarded by %s: damage reported by a lower layer becomes None/default instead of an Err" % nm, ln=t.get("ln"))
+    cx.ob("R7", "R7/no-swallowed-error", n == 0, "(reader code)", "no Result<_, jubako::Error | io::Error> is converted with ok()/unwrap_or*/is_ok()/err() outside the creator (%d offending sites)" % n)
+    cx.ob("R7", "R7/positive-control", control >= 1, "(control)", "the matcher does fire on Result::ok()-style calls (%d sites with other error types)" % control, trivial=True)
+    # the directory pack located at open time: an absent pack must not be unwrapped into a panic silently —
+    # informational (a missing directory pack is not 'damage')
+
+
+def _sig(b, op):
+    """site-independent description of where an operand comes from: callee names with the roots of their
+    arguments, fields, parameters, integer constants"""
+    out = set()
+    for x in b.origins(op, through_calls=False):
+        if x[0] == "call":
+            t = b.term(x[1])
+            roots = frozenset(y for a in t["args"] for y in b.origins(a) if y[0] in ("param", "field") or (y[0] == "const" and isinstance(y[1], int)))
+            out.add(("call", re.sub(r"::<.*", "", callee_str(t)), roots))
+        elif x[0] in ("param", "field"):
+            out.add(x)
+    return out
 
 
 RULES = [
@@ -300,5 +357,6 @@ RULES = [
     ("R3", r3_bounds_matrix, 15),
     ("R4", r4_debug_only_guards, 6),
     ("R5", r5_unchecked_parse, 7),
-    ("R6", r6_size_arithmetic, 6),
+    ("R6", r6_size_arithmetic, 2),
+    ("R7", r7_errors_not_swallowed, 2),
 ]
